@@ -153,26 +153,126 @@ def check_entry(ctx, it):
     return True
 
 
-def solve_items(ctx, items, limit, tag):
+# ------------------------------------------------------------------ termination guard (input side)
+def _sccs(nodes, succ):
+    """Tarjan, iterative; succ restricted to nodes"""
+    index, low, onst, st, out = {}, {}, set(), [], []
+    for root in nodes:
+        if root in index:
+            continue
+        work = [(root, iter([t for t in succ[root] if t in nodes]))]
+        index[root] = low[root] = len(index)
+        st.append(root); onst.add(root)
+        while work:
+            v, it = work[-1]
+            adv = False
+            for t in it:
+                if t not in index:
+                    index[t] = low[t] = len(index)
+                    st.append(t); onst.add(t)
+                    work.append((t, iter([u for u in succ[t] if u in nodes])))
+                    adv = True
+                    break
+                if t in onst:
+                    low[v] = min(low[v], index[t])
+            if adv:
+                continue
+            work.pop()
+            if work:
+                low[work[-1][0]] = min(low[work[-1][0]], low[v])
+            if low[v] == index[v]:
+                comp = set()
+                while True:
+                    w = st.pop(); onst.discard(w); comp.add(w)
+                    if w == v:
+                        break
+                out.append(comp)
+    return out
+
+
+def _mecs(n, succ, is_prob):
+    """maximal end components of the graph when both players cooperate: sets closed under every successor
+    of their probabilistic states, strongly connected, with at least one edge"""
+    res, work = [], [set(range(n))]
+    while work:
+        S = work.pop()
+        changed = True
+        while changed:
+            changed = False
+            for s in list(S):
+                inside = [t for t in succ[s] if t in S]
+                if (is_prob[s] and len(inside) != len(succ[s])) or not inside:
+                    S.discard(s); changed = True
+        if not S:
+            continue
+        comps = _sccs(S, succ)
+        if len(comps) == 1:
+            res.append(S)
+        else:
+            work.extend(c for c in comps if len(c) > 1 or any(t in c for s in c for t in succ[s]))
+    return res
+
+
+def term_guard(g):
+    """(pruned_ok, unpruned_ok): True when NO end component (both players cooperating, Player 1 allowed every
+    action) other than the absorbing winning/losing states contains a positively rewarded state - then every
+    quantity the reward loop iterates is bounded by a finite cooperative value and the loop must stop.
+    Pruned mode: computed on the graph without the Player-1/probabilistic edges into states whose max-min
+    reachability value is 0 (found qualitatively, by a least fixed point; not from the solver's answer)."""
+    pl, tl, rw, fs = g["players"], g["transition_list"], g["rewards"], g["final_states"]
+    n = len(pl)
+    succ = [[t[1] for t in row] for row in tl]
+    is_prob = [p == PR for p in pl]
+    pos = set(fs)
+    changed = True
+    while changed:
+        changed = False
+        for s in range(n):
+            if s in pos:
+                continue
+            hit = [t in pos for t in succ[s]]
+            if (pl[s] == P2 and all(hit)) or (pl[s] != P2 and any(hit)):
+                pos.add(s); changed = True
+
+    def ok(sc):
+        for m in _mecs(n, sc, is_prob):
+            if any(rw[s] > 0 for s in m):
+                return False
+        return True
+    cond = [[t for t in succ[s] if pl[s] == P2 or t in pos] for s in range(n)]
+    return ok(cond), ok(succ)
+
+
+def item_guards(games):
+    return {k: term_guard(games[k]) for k in bc.KEYS}
+
+
+def solve_items(ctx, items, limit, tag, short=4):
     """the batch runner's protocol (conditionalrewards.run_games): the pruned solve first; the unpruned solve
     only when the pruned one succeeded (after 'no solution' run_games records 'Game not solved' and does not
-    call the solver again)"""
-    first = [(it, k) for it in items for k in bc.KEYS]
-    res1 = impl.run_cases([dict(op="solve", game=enc(it["games"][k]), prune=True, limit=limit) for it, k in first],
-                          limit=limit, tag=tag + "p")
+    call the solver again). Termination is claimed on inputs that pass term_guard; the others are solved with a
+    short limit and their outcome is only counted (known finding: the reward loop can diverge)."""
+    gs = [it["games"] for it in items]
+    guards = list(pool().map(item_guards, gs, chunksize=64)) if len(gs) > 500 else [item_guards(x) for x in gs]
+    first = [(it, k, gd[k]) for it, gd in zip(items, guards) for k in bc.KEYS]
+    res1 = impl.run_cases([dict(op="solve", game=enc(it["games"][k]), prune=True, limit=limit if gd[0] else short)
+                           for it, k, gd in first], limit=limit, tag=tag + "p")
     second = []
-    for (it, k), r in zip(first, res1):
-        if _solve_outcome(ctx, it, k, True, r, limit):
-            second.append((it, k))
-    res2 = impl.run_cases([dict(op="solve", game=enc(it["games"][k]), prune=False, limit=limit) for it, k in second],
-                          limit=limit, tag=tag + "u")
-    for (it, k), r in zip(second, res2):
-        _solve_outcome(ctx, it, k, False, r, limit)
+    for (it, k, gd), r in zip(first, res1):
+        if _solve_outcome(ctx, it, k, True, r, limit, gd[0]):
+            second.append((it, k, gd))
+    res2 = impl.run_cases([dict(op="solve", game=enc(it["games"][k]), prune=False, limit=limit if gd[1] else short)
+                           for it, k, gd in second], limit=limit, tag=tag + "u")
+    for (it, k, gd), r in zip(second, res2):
+        _solve_outcome(ctx, it, k, False, r, limit, gd[1])
 
 
-def _solve_outcome(ctx, it, k, prune, r, limit):
+UNGUARDED_TIMEOUTS = []
+
+
+def _solve_outcome(ctx, it, k, prune, r, limit, guarded):
     ctx.evaluations += 1
-    mode = "pruned" if prune else "unpruned"
+    mode = ("pruned" if prune else "unpruned") + ("" if guarded else "-unguarded")
     if "ok" in r:
         ctx.count("solve-%s:ok" % mode)
         if not r.get("intact", True):
@@ -181,10 +281,31 @@ def _solve_outcome(ctx, it, k, prune, r, limit):
     if r.get("exc") == "ValueError" and r.get("msg") == NO_SOLUTION:
         ctx.count("solve-%s:no-solution" % mode)
         return False
+    if r.get("timeout") and not guarded:
+        ctx.count("solve-%s:not-finished" % mode)
+        UNGUARDED_TIMEOUTS.append(dict(bc.public(it["case"]), game=k, prune=prune))
+        return False
     what = "timeout after %ss" % limit if r.get("timeout") else "%s: %s" % (r.get("exc"), r.get("msg"))
     ctx.violation("%s (%s) was neither solved nor reported unsolvable: %s" % (k, mode, what),
                   bc.public(it["case"]), game=k, prune=prune)
     return False
+
+
+def known_witnesses(ctx):
+    """explicit witnesses of known findings (known_findings.json, property C11, status known): each is a board,
+    a game key and a pruning mode on which the solver does not finish; reported while that is still so"""
+    for kf in ctx.known_witnesses("known"):
+        w = kf.get("witness")
+        if not w:
+            continue
+        items = bc.run_batch([("known", w, False)], "c11k")
+        g = (items[0]["games"] or {}).get(w.get("game", "game_a"))
+        if g is None:
+            continue
+        r = impl.run_cases([dict(op="solve", game=enc(g), prune=bool(w.get("prune", True)), limit=20)], limit=20,
+                           tag="c11ks")[0]
+        if r.get("timeout"):
+            ctx.known_hits.append((kf.get("id"), kf.get("line") or "%s still does not terminate" % kf.get("id")))
 
 
 def run(ctx):
@@ -216,6 +337,10 @@ def run(ctx):
                        tag="c11x")
     ctx.notes.append("arrow code 4 / loose code 2 -> %s / %s (outside the modelled domain)" % (
         r[0].get("exc", "no error"), r[1].get("exc", "no error")))
+    known_witnesses(ctx)
+    if UNGUARDED_TIMEOUTS:
+        ctx.notes.append("%d solves of inputs outside the termination guard did not finish within the short limit "
+                         "(known finding: the reward loop diverges); first: %s" % (len(UNGUARDED_TIMEOUTS), UNGUARDED_TIMEOUTS[0]))
     if _pool is not None:
         _pool.shutdown()
 
